@@ -2415,6 +2415,14 @@ fn usefulness(patterns: Vec<PatternStack>, q: PatternStack, defs: &Defs) -> Vec<
         vec![q]
     } else if patterns[0].is_empty() || q.is_empty() {
         vec![]
+    } else if patterns.iter().any(|p| {
+        p.iter()
+            .all(|x| matches!(x.0, PatternEnum::Identifier(_)))
+    }) {
+        // A row of identifiers matches every value: nothing is missing. (Without this exit the
+        // remaining columns of such a row are still split, e.g. 2^n calls for n arms of the
+        // shape (_, .., true, .., _).)
+        vec![]
     } else if matches!(q[0].0, PatternEnum::Identifier(_))
         && patterns
             .iter()
